@@ -11,10 +11,24 @@
 //!   cat V N HEX          NlriIter over a concatenation, every item composed,
 //!                        the result iterated again
 //!
-//! The oracle judges with reference encoders written from the RFCs
-//! (4271/4760 prefixes, 8277 labels, 4364 VPN, 4684 route target, 8955
-//! FlowSpec, 4761 VPLS, 7432 EVPN, 7911 path id); it never calls a routecore
-//! composer.
+//! The oracle judges with reference encoders and a reference decoder written
+//! from the RFCs (4271/4760 prefixes, 8277 labels, 4364 VPN, 4684 route target,
+//! 8955 FlowSpec, 4761 VPLS, 7432 EVPN, 7911 path id); it never calls a
+//! routecore composer or parser. It demands what the property states and no
+//! more: compose_len = octets written; the octets written are AN encoding of
+//! the value (as `ref_dec` reads them - not byte equality with `ref_enc`);
+//! routecore decodes them to the value and consumes exactly them; a
+//! concatenation decodes to exactly the encoded sequence.
+//!
+//! Three classes of values (see `ref_wf`, `ref_tolerated`, `ref_denorm`):
+//!  * well formed = RFC-defined and carried by the wire format: judged strictly.
+//!    `gen_val` (used by C01/C06/C07/C14/C15/C17 too) draws from this class only;
+//!  * tolerated = outside the RFC-defined space although the unchanged parsers
+//!    accept them (route targets of 1..=3 / 13..=32 octets): a rejection OR a
+//!    faithful round trip is accepted;
+//!  * K10 = values only serde builds that hold a field the wire image does not
+//!    carry as given (EvpnRouteType::Unimplemented(1..=5) written t = 256 + code,
+//!    a foreign afi inside IpvNFlowSpecNlri): recorded known finding.
 use crate::common::*;
 use octseq::Parser;
 use routecore::bgp::nlri::afisafi::*;
@@ -175,7 +189,12 @@ fn fs_components_ok(raw: &[u8]) -> bool {
     true
 }
 
-/// is the value inside the domain the property quantifies over (encodable at all)?
+/// RFC 4684 4: a route-target membership NLRI is a prefix of 0 or 32..=96 bits, i.e. no octets or
+/// 4..=12 octets (origin AS, then up to 8 octets of route target)
+pub fn rt_len_defined(n: usize) -> bool { n == 0 || (4..=12).contains(&n) }
+
+/// is the value inside the domain the property quantifies over: a value the RFCs define and the wire
+/// format can carry? (The generators of C01/C06/C07/C14/C15/C17 draw from this space only.)
 pub fn ref_wf(shape: Shape, v6: bool, v: &Val) -> bool {
     let pid_ok = v.pid.map_or(true, |p| p <= u32::MAX as u64);
     pid_ok && match shape {
@@ -183,10 +202,46 @@ pub fn ref_wf(shape: Shape, v6: bool, v: &Val) -> bool {
         Shape::Mpls => pfx_ok(v6, v) && labels_ok(&v.labels) && 8 * v.labels.len() as u64 + v.plen <= 255,
         Shape::Vpn => pfx_ok(v6, v) && labels_ok(&v.labels) && v.rd.len() == 8
             && 8 * (8 + v.labels.len() as u64) + v.plen <= 255,
-        Shape::Rt => v.raw.len() <= 31,
+        Shape::Rt => rt_len_defined(v.raw.len()),
         Shape::Fs => v.afi == if v6 { 2 } else { 1 } && v.raw.len() <= 4095 && (v6 || fs_components_ok(&v.raw)),
         Shape::Vpls => v.rd.len() == 8 && v.ve.iter().all(|x| *x < 65536) && v.lb < (1 << 24),
         Shape::Evpn => v.t < 256 && v.raw.len() <= 255,
+    }
+}
+
+/// Values outside the RFC-defined space that the wire format can nevertheless carry and that the
+/// parsers of the unchanged code accept: route targets of 1..=3 or 13..=32 octets. The property
+/// cannot demand that they be accepted: on these the oracle accepts a rejection OR a faithful
+/// round trip (the model mirrors what the code does).
+pub fn ref_tolerated(shape: Shape, _v6: bool, v: &Val) -> bool {
+    v.pid.map_or(true, |p| p <= u32::MAX as u64) && shape == Shape::Rt && !rt_len_defined(v.raw.len()) && v.raw.len() <= 32
+}
+
+/// Values of the Rust types that hold a field the wire format does not carry in the state given
+/// (K10): `EvpnRouteType::Unimplemented(1..=5)` (t = 256 + code; the wire carries the code, which
+/// decodes to the named variant) and an `afi` other than the family's inside `IpvNFlowSpecNlri`
+/// (the wire carries no AFI). Only serde Deserialize builds them. Returns the value the wire image
+/// denotes (what decoding yields) if `v` is such a value and otherwise well formed.
+pub fn ref_denorm(shape: Shape, v6: bool, v: &Val) -> Option<Val> {
+    let mut n = v.clone();
+    match shape {
+        Shape::Evpn if (257..=261).contains(&v.t) => n.t = v.t - 256,
+        Shape::Fs if v.afi != (if v6 { 2 } else { 1 }) && v.afi < 65536 => n.afi = if v6 { 2 } else { 1 },
+        _ => return None,
+    }
+    if ref_wf(shape, v6, &n) { Some(n) } else { None }
+}
+
+/// Is the wire form of one NLRI (`item` starts at its first octet, path id included if `ap`) outside
+/// what the RFCs define although the unchanged parsers read it: a route-target bit count other than
+/// 0 / 32..=96 (RFC 4684 4), a VPLS length field other than 17 (RFC 4761 3.2.2)? An implementation
+/// may reject these; reference decoders of other properties stop judging a list at such an item.
+pub fn wire_tolerated(shape: Shape, ap: bool, item: &[u8]) -> bool {
+    let k = if ap { 4 } else { 0 };
+    match shape {
+        Shape::Rt => item.len() > k && !(item[k] == 0 || (32..=96).contains(&item[k])),
+        Shape::Vpls => item.len() >= k + 2 && (item[k], item[k + 1]) != (0, 17),
+        _ => false,
     }
 }
 
@@ -226,15 +281,79 @@ pub fn bits(shape: Shape, v: &Val) -> u64 {
     }
 }
 
+/// Reference decoder, written from the RFCs (4271 4.3 prefixes, 8277 labels and the withdraw
+/// compatibility values, 4364 route distinguisher, 4684, 8955 4.1 length rule – either length form
+/// is legal for a body below 240 octets –, 4761 3.2.2, 7432 7, 7911 path id); shares no code with
+/// routecore's parsers. One NLRI off the head of `b`: the value and the octets consumed. The VPLS
+/// length field is skipped (`wire_tolerated` says whether it was 17). Values are returned as read;
+/// whether they are well formed is `ref_wf`'s business.
+pub fn ref_dec(shape: Shape, v6: bool, ap: bool, b: &[u8]) -> Option<(Val, usize)> {
+    let mut v = Val::default();
+    let mut i = 0usize;
+    let need = |i: usize, n: usize| -> Option<()> { if b.len() >= i + n { Some(()) } else { None } };
+    if ap { need(0, 4)?; v.pid = Some(u32::from_be_bytes([b[0], b[1], b[2], b[3]]) as u64); i = 4; }
+    let alen = if v6 { 16 } else { 4 };
+    let pfx = |v: &mut Val, i: &mut usize, nbits: usize| -> Option<()> {
+        if nbits > 8 * alen { return None; }
+        let nb = (nbits + 7) / 8;
+        need(*i, nb)?;
+        let mut a = vec![0u8; alen];
+        a[..nb].copy_from_slice(&b[*i..*i + nb]);
+        v.plen = nbits as u64; v.addr = a; *i += nb;
+        Some(())
+    };
+    match shape {
+        Shape::Pfx => { need(i, 1)?; let n = b[i] as usize; i += 1; pfx(&mut v, &mut i, n)?; }
+        Shape::Mpls | Shape::Vpn => {
+            need(i, 1)?; let total = b[i] as usize; i += 1;
+            loop {
+                need(i, 3)?;
+                let g = [b[i], b[i + 1], b[i + 2]];
+                v.labels.extend_from_slice(&g); i += 3;
+                if g[2] & 1 == 1 || g == [0x80, 0, 0] || g == [0, 0, 0] { break; }
+            }
+            let mut used = 8 * v.labels.len();
+            if shape == Shape::Vpn { used += 64; }
+            if used > total { return None; }
+            if shape == Shape::Vpn { need(i, 8)?; v.rd = b[i..i + 8].to_vec(); i += 8; }
+            pfx(&mut v, &mut i, total - used)?;
+        }
+        Shape::Rt => { need(i, 1)?; let nb = (b[i] as usize + 7) / 8; i += 1; need(i, nb)?; v.raw = b[i..i + nb].to_vec(); i += nb; }
+        Shape::Fs => {
+            need(i, 1)?; let l1 = b[i] as usize; i += 1;
+            let n = if l1 >= 0xf0 { need(i, 1)?; let n = ((l1 & 0x0f) << 8) | b[i] as usize; i += 1; n } else { l1 };
+            need(i, n)?;
+            v.afi = if v6 { 2 } else { 1 }; v.raw = b[i..i + n].to_vec(); i += n;
+        }
+        Shape::Vpls => {
+            need(i, 19)?;
+            let x = &b[i + 2..i + 19];
+            v.rd = x[..8].to_vec();
+            v.ve = [u16::from_be_bytes([x[8], x[9]]) as u64, u16::from_be_bytes([x[10], x[11]]) as u64, u16::from_be_bytes([x[12], x[13]]) as u64];
+            v.lb = ((x[14] as u64) << 16) | ((x[15] as u64) << 8) | x[16] as u64;
+            i += 19;
+        }
+        Shape::Evpn => { need(i, 2)?; v.t = b[i] as u64; let n = b[i + 1] as usize; i += 2; need(i, n)?; v.raw = b[i..i + n].to_vec(); i += n; }
+    }
+    Some((v, i))
+}
+
+/// the octets are exactly one encoding of `v`, as the reference decoder reads them
+fn ref_encodes(shape: Shape, v6: bool, enc: &[u8], v: &Val) -> bool {
+    matches!(ref_dec(shape, v6, v.pid.is_some(), enc), Some((d, n)) if n == enc.len() && d == *v)
+}
+
 /// can the value be built at all (through serde)?
-fn buildable(shape: Shape, v6: bool, v: &Val) -> bool {
+pub fn buildable(shape: Shape, v6: bool, v: &Val) -> bool {
     v.pid.map_or(true, |p| p <= u32::MAX as u64) && match shape {
         Shape::Pfx | Shape::Mpls => pfx_ok(v6, v),
         Shape::Vpn => pfx_ok(v6, v) && v.rd.len() == 8,
         Shape::Rt => true,
-        Shape::Fs => v.afi == if v6 { 2 } else { 1 },
+        // `Afi` deserialises from any u16 (serde(from = "u16")), whatever the family
+        Shape::Fs => v.afi < 65536,
         Shape::Vpls => v.rd.len() == 8 && v.ve.iter().all(|x| *x < 65536) && v.lb < (1 << 24),
-        Shape::Evpn => v.t < 256,
+        // t < 256: EvpnRouteType::from(t); 256 + c (c in 1..=5): the non-normalised Unimplemented(c)
+        Shape::Evpn => v.t < 256 || (257..=261).contains(&v.t),
     }
 }
 
@@ -254,7 +373,7 @@ fn json_pfx(v: &Val) -> String {
 }
 const EVPN_NAMES: [&str; 5] = ["EthernetAutoDiscovery", "MacIpAdvertisement", "InclusiveMulticastEthernetTag", "EthernetSegment", "IpPrefix"];
 
-fn to_json(shape: Shape, v: &Val) -> String {
+pub fn to_json(shape: Shape, v: &Val) -> String {
     let body = match shape {
         Shape::Pfx => json_pfx(v),
         Shape::Mpls => format!("{{\"prefix\":{},\"labels\":{{\"octets\":{}}}}}", json_pfx(v), json_bytes(&v.labels)),
@@ -265,7 +384,7 @@ fn to_json(shape: Shape, v: &Val) -> String {
         Shape::Vpls => format!("{{\"rd\":{{\"bytes\":{}}},\"ve_id\":{},\"ve_block_offset\":{},\"ve_block_size\":{},\"raw_label_base\":{}}}",
             json_bytes(&v.rd), v.ve[0], v.ve[1], v.ve[2], v.lb),
         Shape::Evpn => {
-            let rt = if (1..=5).contains(&v.t) { format!("\"{}\"", EVPN_NAMES[v.t as usize - 1]) } else { format!("{{\"Unimplemented\":{}}}", v.t) };
+            let rt = if (1..=5).contains(&v.t) { format!("\"{}\"", EVPN_NAMES[v.t as usize - 1]) } else { format!("{{\"Unimplemented\":{}}}", v.t % 256) };
             format!("{{\"route_type\":{},\"raw\":{}}}", rt, json_bytes(&v.raw))
         }
     };
@@ -305,7 +424,8 @@ pub fn from_json(shape: Shape, ap: bool, j: &Value) -> Val {
         Shape::Evpn => {
             v.t = match &b["route_type"] {
                 Value::String(s) => EVPN_NAMES.iter().position(|n| n == s).unwrap() as u64 + 1,
-                o => o["Unimplemented"].as_u64().unwrap(),
+                // a non-normalised Unimplemented(1..=5) is not the named variant (see `buildable`)
+                o => { let c = o["Unimplemented"].as_u64().unwrap(); if (1..=5).contains(&c) { 256 + c } else { c } }
             };
             v.raw = jbytes(&b["raw"]);
         }
@@ -516,7 +636,8 @@ pub fn gen_val(rng: &mut Rng, var: &Var) -> Val {
             v.rd = rng.bytes(8);
             if rng.chance(1, 3) { v.rd[0] = 0; v.rd[1] = rng.below(3) as u8; }
         }
-        Shape::Rt => { let n = *rng.pick(&[0usize, 4, 12, 12, 12, 1, 5, 8, 31]); v.raw = rng.bytes(n); }
+        // RFC 4684: default (0 bits), origin AS only (32), anything up to origin AS + route target (96)
+        Shape::Rt => { let n = *rng.pick(&[0usize, 4, 12, 12, 12, 5, 8, 11, 7]); v.raw = rng.bytes(n); }
         Shape::Fs => {
             v.afi = if var.v6 { 2 } else { 1 };
             let n = match rng.below(10) { 0 => 0, 1 => 239, 2 => 240, 3 => 241, 4 => 4095, 5 => 4094, _ => 2 + rng.below(60) as usize };
@@ -567,9 +688,10 @@ impl Prop for C05 {
                 } },
                 // label depth 1..=8 (10 for plain MPLS), both compatibility labels, all prefix lengths at the edges
                 Shape::Mpls | Shape::Vpn => {
-                    for depth in 0..=11usize { for plen in [0, 1, 7, 8, 9, 15, 24, 31, 32, 33, 64, 127, 128] {
+                    // (depth 12: eleven labels = 33 octets = 264 bits, the `unwrap_or(u8::MAX)` saturation of compose)
+                    for depth in 0..=12usize { for plen in [0, 1, 7, 8, 9, 15, 24, 31, 32, 33, 64, 127, 128] {
                         if plen > maxlen { continue; }
-                        let labels = match depth { 0 => vec![0x80, 0, 0], 11 => vec![0, 0, 0], d => gen_labels(rng, d) };
+                        let labels = match depth { 0 => vec![0x80, 0, 0], 11 => vec![0, 0, 0], 12 => gen_labels(rng, 11), d => gen_labels(rng, d) };
                         let mut v = Val { pid: pid(rng), plen, addr: gen_addr(rng, var.v6, plen, 4), labels, ..Default::default() };
                         if var.shape == Shape::Vpn { v.rd = rng.bytes(8); }
                         out.push(val_line(var, &v));
@@ -588,12 +710,16 @@ impl Prop for C05 {
                     let v = Val { pid: pid(rng), t: *rng.pick(&[0u64, 1, 2, 3, 4, 5, 6, 255]), raw: rng.bytes(n), ..Default::default() };
                     out.push(val_line(var, &v));
                     if n <= 255 { out.push(format!("rt {} {}", var.name, hex(&ref_enc(var.shape, &v)))); }
+                    // K10: the non-normalised route types Unimplemented(1..=5), which only serde builds
+                    if n < 10 { out.push(val_line(var, &Val { t: 257 + (n as u64 % 5), ..v.clone() })); }
                 },
                 Shape::Fs => for n in [0usize, 2, 3, 4, 5, 17, 238, 239, 240, 241, 255, 256, 4094, 4095, 4096, 5000] {
                     let raw = if var.v6 { rng.bytes(n) } else { gen_fs_components(rng, n) };
                     let v = Val { pid: pid(rng), afi: if var.v6 { 2 } else { 1 }, raw, ..Default::default() };
                     out.push(val_line(var, &v));
                     if n <= 4095 { out.push(format!("rt {} {}", var.name, hex(&ref_enc(var.shape, &v)))); }
+                    // K10: an afi that is not the family's (serde accepts any u16)
+                    if n <= 17 { out.push(val_line(var, &Val { afi: *rng.pick(&[if var.v6 { 1u64 } else { 2 }, 25, 0, 65535]), ..v.clone() })); }
                 },
                 Shape::Vpls => for i in 0..40u64 {
                     let e = |rng: &mut Rng, m: u64| if i < 8 { if i & 1 == 0 { 0 } else { m } } else { rng.edgy(m) };
@@ -668,15 +794,43 @@ impl Prop for C05 {
             let (a, b) = s.split_once(' ')?;
             Some((kv_hex("enc", a)?, kv_nat("clen", b)? as usize))
         };
-        // judge one value against its composed bytes and the re-parse
+        // judge one value against its composed bytes and the re-parse. What is demanded is what the
+        // property states: compose_len = octets written; the octets written are AN encoding of the
+        // value (read by the independent reference decoder – not necessarily the reference ENcoding:
+        // e.g. either FlowSpec length form, any VPLS length field); decoding them yields the value
+        // and consumes exactly them.
         let judge = |val: &Val, enc: &[u8], clen: usize, re: &str| -> Result<(), String> {
             if clen != enc.len() { return Err(format!("compose_len() = {} but compose wrote {} octets", clen, enc.len())); }
-            if !ref_wf(var.shape, var.v6, val) { return Ok(()); } // not encodable at all: outside the property's domain
-            let want = ref_enc(var.shape, val);
-            if enc != want { return Err(format!("composed {} where the reference encoding is {}", hex(enc), hex(&want))); }
+            let wf = ref_wf(var.shape, var.v6, val);
+            let tolerated = ref_tolerated(var.shape, var.v6, val);
+            let denorm = ref_denorm(var.shape, var.v6, val);
+            if !wf && !tolerated && denorm.is_none() { return Ok(()); } // not encodable at all: outside the property's domain
+            // the value the wire image denotes
+            let wire_val = denorm.clone().unwrap_or_else(|| val.clone());
+            let saturated_rt = var.shape == Shape::Rt && val.raw.len() == 32; // 8 * 32 does not fit the length octet
+            if !saturated_rt && !ref_encodes(var.shape, var.v6, enc, &wire_val) {
+                return Err(format!("composed {}, which the reference decoder does not read as the value (its reference encoding is {})",
+                    hex(enc), hex(&ref_enc(var.shape, &wire_val))));
+            }
             let exp = format!("re=ok used={} {}", enc.len(), show(var.shape, val));
-            if re != exp { return Err(format!("decoding the composed bytes gave `{}`, expected `{}`", re, exp)); }
-            Ok(())
+            if re == exp { return Ok(()); }
+            // a value outside the RFC-defined space may be refused by the parser
+            if tolerated && re == "re=err" { return Ok(()); }
+            if denorm.is_some() && re == format!("re=ok used={} {}", enc.len(), show(var.shape, &wire_val)) {
+                return Err(format!("K10 the round trip does not return an equal value: `{}` decodes to `{}`, which is != the original \
+                    (the field is compared by == but not carried by the wire image as given)", show(var.shape, val), show(var.shape, &wire_val)));
+            }
+            Err(format!("decoding the composed bytes gave `{}`, expected `{}`", re, exp))
+        };
+        // all NLRI in `b`, as the reference decoder reads them (None: `b` is not a sequence of NLRI)
+        let ref_all = |b: &[u8]| -> Option<Vec<Val>> {
+            let mut out = Vec::new();
+            let mut i = 0;
+            while i < b.len() {
+                let (v, n) = ref_dec(var.shape, var.v6, var.ap, &b[i..])?;
+                out.push(v); i += n;
+            }
+            Some(out)
         };
         match w[0] {
             "dec" => {
@@ -695,10 +849,17 @@ impl Prop for C05 {
                 if parts.len() != 3 { return Err("malformed reply".into()); }
                 let val = rd(parts[0].strip_prefix("ok ").ok_or("malformed reply")?).ok_or("unreadable value")?;
                 let (enc, clen) = enc_clen(parts[1]).ok_or("malformed reply")?;
-                // whatever the FlowSpec parser returns must be a complete component list (F25)
+                // whatever the FlowSpec parser returns must be a complete component list (F28)
                 if var.shape == Shape::Fs && !ref_wf(var.shape, var.v6, &val) {
                     return Err(format!("parse returned the FlowSpec NLRI `{}` whose components do not end at its length; `{}`",
                         show(var.shape, &val), parts[2]));
+                }
+                // an accepted input was read as the value the reference decoder reads
+                let raw = unhex_strict(w[2]).ok_or("bad hex")?;
+                if let Some((rv, _)) = ref_dec(var.shape, var.v6, var.ap, &raw) {
+                    if (ref_wf(var.shape, var.v6, &rv) || ref_tolerated(var.shape, var.v6, &rv)) && rv != val {
+                        return Err(format!("parse returned `{}` where the reference decoder reads `{}`", show(var.shape, &val), show(var.shape, &rv)));
+                    }
                 }
                 judge(&val, &enc, clen, parts[2])
             }
@@ -706,7 +867,14 @@ impl Prop for C05 {
                 let (tb, rest) = w[2..].split_last().unwrap();
                 let _ = tb;
                 let val = read(var.shape, var.ap, rest).ok_or("unreadable value")?;
-                if reply == "panic" { return Err(format!("compose panicked on a value of {} ({} bits)", var.name, bits(var.shape, &val))); }
+                if reply == "panic" {
+                    // K3 is the overflow of the u8 sum `try_from(label/RD bits).unwrap_or(255) + prefix length`; a panic
+                    // on a value for which that sum fits is something else and must not be taken for it
+                    let fixed = match var.shape { Shape::Mpls => Some(0u64), Shape::Vpn => Some(64), _ => None };
+                    let overflows = fixed.map_or(false, |f| (f + 8 * val.labels.len() as u64).min(255) + val.plen > 255);
+                    return Err(if overflows { format!("compose panicked on a value of {} ({} bits): the length octet overflows", var.name, bits(var.shape, &val)) }
+                        else { format!("composing or re-parsing a value of {} panicked although its length octet does not overflow", var.name) });
+                }
                 if parts.len() != 2 { return Err("malformed reply".into()); }
                 let (enc, clen) = enc_clen(parts[0].strip_prefix("ok ").ok_or("malformed reply")?).ok_or("malformed reply")?;
                 judge(&val, &enc, clen, parts[1])
@@ -724,15 +892,19 @@ impl Prop for C05 {
                 let (enc, clen) = enc_clen(parts[1]).ok_or("malformed reply")?;
                 if clen != enc.len() { return Err(format!("sum of compose_len() = {} but {} octets were written", clen, enc.len())); }
                 if vals.iter().all(|v| ref_wf(var.shape, var.v6, v)) {
-                    let want: Vec<u8> = vals.iter().flat_map(|v| ref_enc(var.shape, v)).collect();
-                    if enc != want { return Err(format!("composed {} where the reference encoding is {}", hex(&enc), hex(&want))); }
+                    // the items written are encodings of the items read, in order (any legal encoding)
+                    if ref_all(&enc).as_ref() != Some(&vals) {
+                        let want: Vec<u8> = vals.iter().flat_map(|v| ref_enc(var.shape, v)).collect();
+                        return Err(format!("composed {}, which the reference decoder does not read as the sequence of values (reference encoding {})", hex(&enc), hex(&want)));
+                    }
                     if parts[2] != "re=same" { return Err("the concatenation of the composed items does not decode to the same sequence".into()); }
                 }
                 if let Ok(k) = w[2].parse::<usize>() {
-                    // the request is a concatenation of k reference-encoded well-formed values
+                    // the request is a concatenation of k reference-encoded well-formed values: it decodes
+                    // to exactly that sequence, in order, up to the end
                     let raw = unhex_strict(w[3]).unwrap();
                     if n != k || !end { return Err(format!("{} well-formed NLRI concatenated, {} decoded (end={})", k, n, end)); }
-                    if enc != raw { return Err("re-composed concatenation differs from the original".into()); }
+                    if ref_all(&raw).as_ref() != Some(&vals) { return Err("the decoded sequence is not the sequence that was encoded".into()); }
                 }
                 Ok(())
             }
